@@ -1173,6 +1173,34 @@ func (c *Ctx) JSONDoc() *Doc {
 	o.Methods = []string{"POST", "PUT", "PATCH", "GET"}
 	o.SchemaDepth = 3
 	d := c.Composition(o)
+	// inheritance several levels deep: Signed = allOf[$ref Document, ...], Document =
+	// allOf[$ref Resource, ...]
+	if rapid.IntRange(0, 2).Draw(c.T, "allof_chain") == 0 {
+		base := &Schema{Type: "object", Properties: map[string]*Schema{c.SafeName("p", "chainid"): {Type: "integer", Format: "int64"}, c.SafeName("p", "chainopt"): {Type: "string"}}}
+		base.Required = []string{SortedKeys(base.Properties)[0]}
+		prev := c.AddSchema(c.CompName("Resource", "chainbase"), base)
+		ok := c.AllowSchema(prev, "allof-member")
+		for lvl, n := 0, rapid.IntRange(2, 3).Draw(c.T, "allof_chain_levels"); ok && lvl < n; lvl++ {
+			own := &Schema{Type: "object", Properties: map[string]*Schema{c.SafeName("p", "chainown"): {Type: "string"}, c.SafeName("p", "chainown"): {Type: "boolean"}}}
+			own.Required = []string{SortedKeys(own.Properties)[0]}
+			level := &Schema{AllOf: []*Schema{prev, own}}
+			if !c.AllowSchema(level, "component") {
+				ok = false
+				break
+			}
+			next := c.AddSchema(c.CompName("Derived", "chainlevel"), level)
+			if !c.AllowSchema(next, "allof-member") || !c.AllowSchema(next, "request-body") {
+				delete(d.Components.Schemas, strings.TrimPrefix(next.Ref, RefSchemas))
+				break
+			}
+			prev = next
+			c.Tag("json:allOf-chain")
+		}
+		if ok && c.AllowSchema(prev, "request-body") && c.AllowSchema(prev, "response-body") {
+			d.Paths["/"+c.PlainName("chain", "chainpath")] = &PathItem{Post: &Operation{RequestBody: &RequestBody{Required: true, Content: JSONContent(prev)},
+				Responses: map[string]*Response{"200": {Description: Str("ok"), Content: JSONContent(prev)}}}}
+		}
+	}
 	// a nullable component list of objects without required properties, held by a
 	// property: its smallest non-null values are [] and [{}]
 	if rapid.IntRange(0, 2).Draw(c.T, "nullable_list_component") == 0 {
